@@ -749,6 +749,73 @@ func checkHash(r *Report, p *Prog) {
 				}
 			}
 		}
+		// error replies carry a constant status text only (no error detail, which may quote a stored record)
+		for _, b := range fn.Blocks {
+			for _, in := range b.Instrs {
+				c, ok := in.(*ssa.Call)
+				if !ok || !calleeIs(c, "net/http.Error") {
+					continue
+				}
+				n++
+				msg := c.Call.Args[1]
+				okMsg := false
+				if _, isC := msg.(*ssa.Const); isC {
+					okMsg = true
+				}
+				if mc, isCall := msg.(*ssa.Call); isCall && calleeIs(mc, "net/http.StatusText") {
+					okMsg = true
+				}
+				r.Check(okMsg, "C19.hash", fmt.Sprintf("%s: error reply body is a constant status text [%s]", p.FnName(fn), p.InstrPos(in)), p.InstrPos(in), "http.StatusText(...) or a constant", "the error reply body is "+fc.AP(msg)+": error detail (which can quote a stored record, including its password hash) is sent to the client")
+			}
+		}
+		// a User record is serialised or formatted only (a) as the value handed to Store.Put or (b) after its hash was cleared
+		for _, b := range fn.Blocks {
+			for _, in := range b.Instrs {
+				c, ok := in.(*ssa.Call)
+				if !ok || c.Call.StaticCallee() == nil {
+					continue
+				}
+				nm := c.Call.StaticCallee().String()
+				isFmt := strings.HasPrefix(nm, "fmt.") || strings.HasPrefix(nm, "(*log.Logger).") || strings.HasPrefix(nm, "log.")
+				isMarshal := nm == "encoding/json.Marshal" || nm == "encoding/json.MarshalIndent" || nm == "encoding/xml.Marshal"
+				if !isFmt && !isMarshal {
+					continue
+				}
+				var operands []ssa.Value
+				for _, a := range c.Call.Args {
+					operands = append(operands, a)
+				}
+				if isFmt {
+					operands = append(operands, varargValues(c)...)
+				}
+				for _, op := range operands {
+					v := op
+					if mi, ok := v.(*ssa.MakeInterface); ok {
+						v = mi.X
+					}
+					if !typeIs(v.Type(), idpPkgPath, "User") {
+						continue
+					}
+					n++
+					obj := rootOfAddr(v)
+					cleared := false
+					for _, bb := range fn.Blocks {
+						for _, i2 := range bb.Instrs {
+							st, ok := i2.(*ssa.Store)
+							if !ok || !isNilConst(st.Val) {
+								continue
+							}
+							if fa, ok := st.Addr.(*ssa.FieldAddr); ok && fieldName(fa.X.Type(), fa.Field) == "HashedPassword" && rootOfAddr(fa.X) == obj {
+								if bb == b && instrBefore(bb, i2, in) || bb != b && bb.Dominates(b) {
+									cleared = true
+								}
+							}
+						}
+					}
+					r.Check(cleared, "C19.hash", fmt.Sprintf("%s: a user record is rendered by %s only after its hash was cleared", p.FnName(fn), shortFn(c.Call.StaticCallee())), p.InstrPos(in), "HashedPassword = nil dominates", "the user record, stored password hash included, is rendered into a string/log line by "+shortFn(c.Call.StaticCallee())+" without clearing the hash first")
+				}
+			}
+		}
 		// every Encode of a User value to a response is preceded by clearing the hash of that object
 		for _, b := range fn.Blocks {
 			for _, in := range b.Instrs {
